@@ -1,6 +1,7 @@
 import CalVerif.Model.SheetTypes
 import CalVerif.Gen.SheetCodes
 import CalVerif.Model.Metadata
+import CalVerif.Spec.SstEnc
 /-! Encoders of the workbook-level metadata (property C16): how a logical sheet list / defined names / date
     flag is laid out as BIFF8 globals records, as XLSB workbook records, and as XML events of
     `xl/workbook.xml` and `content.xml`. The round-trip theorems of `Props/C16.lean` are about these
@@ -14,9 +15,8 @@ namespace MetaEnc
 
 open Meta
 
-def byte (n : Nat) : UInt8 := UInt8.ofNat (n % 256)
-def le16 (n : Nat) : Bytes := [byte n, byte (n / 256)]
-def le32 (n : Nat) : Bytes := [byte n, byte (n / 256), byte (n / 65536), byte (n / 16777216)]
+-- byte-level encoders shared with the BIFF string encoders (C12, `Spec/SstEnc.lean`): `Biff.byte`, `Biff.le16`, `Biff.le32`
+open Biff (byte le16 le32)
 
 /-- first key of a table that maps to `v` -/
 def codeOf {κ β : Type} [BEq β] (tbl : List (κ × β)) (v : β) : Option κ := (tbl.find? (·.2 == v)).map (·.1)
@@ -53,8 +53,8 @@ def shortString (us : List Nat) (wide : Bool) : Bytes :=
 def encodeBoundSheet (offset hs dt : Nat) (us : List Nat) (wide : Bool) : Bytes :=
   le32 offset ++ [byte hs, byte dt] ++ shortString us wide
 
-/-- one framed BIFF record -/
-def record (typ : Nat) (data : Bytes) : Bytes := le16 typ ++ le16 data.length ++ data
+/-- one framed BIFF record without CONTINUE records (`Biff.frameRec`, the framing C12's round trip is about) -/
+def record (typ : Nat) (data : Bytes) : Bytes := Biff.frameRec typ data []
 
 /-- BOF payload of a BIFF8 substream (`dt` = 5 for the globals) -/
 def bofData (dt : Nat) : Bytes := le16 0x0600 ++ le16 dt ++ List.replicate 12 0
@@ -96,6 +96,42 @@ def GRec.bytes : GRec → Bytes
 /-- globals substream: BOF, the records, EOF, then whatever follows in the stream (sheet substreams) -/
 def encodeGlobals (recs : List GRec) (tail : Bytes) : Bytes :=
   record 0x0809 (bofData 5) ++ (recs.flatMap GRec.bytes ++ (record 0x000A [] ++ tail))
+
+/-! ### what the xls theorems assume and promise -/
+
+/-- the record ids the globals loop interprets, and CONTINUE -/
+def interpretedIds : List Nat := [0x002F, 0x0042, 0x0022, 0x041E, 0x00E0, 0x0085, 0x0809, 0x0018, 0x0017, 0x00FC, 0x000A, 0x003C]
+
+/-- a declared sheet the format can express: 32-bit offset, 2 reserved bits, a sheet type of MS-XLS 2.4.28,
+    at most 255 UTF-16 units, 8-bit storage only for units below 256 -/
+def XlsSheet.ok (s : XlsSheet) : Prop :=
+  s.offset < 4294967296 ∧ s.reserved < 4 ∧ (∃ k, xlsKindCode k = some s.dt) ∧ s.units.length < 256 ∧
+    ∀ u ∈ s.units, u < (if s.wide then 65536 else 256)
+
+def XlsSheet.kind (s : XlsSheet) : SheetType := (Gen.xlsKindTable.lookup s.dt).getD .workSheet
+
+/-- what the reader is expected to keep for a declared sheet: stream offset and `Sheet { name, typ, visible }` -/
+def XlsSheet.decoded (s : XlsSheet) : Nat × Sheet Text :=
+  (s.offset, ⟨(Biff.decodeUtf16 s.units).filter (· != 0), s.kind, s.vis⟩)
+
+def GRec.ok : GRec → Prop
+  | .sheet s => s.ok
+  | .date v => v < 65536
+  | .neutral t d => t < 65536 ∧ t ∉ interpretedIds ∧ d.length < 65536
+
+/-- the effect a record is expected to have on the loop state -/
+def applyRec (st : XlsSt) : GRec → XlsSt
+  | .sheet s => { st with sheets := st.sheets ++ [s.decoded] }
+  | .date v => if v = 1 then { st with is1904 := true } else st
+  | .neutral _ _ => st
+
+def declaredSheets : List GRec → List XlsSheet
+  | [] => []
+  | .sheet s :: rs => s :: declaredSheets rs
+  | _ :: rs => declaredSheets rs
+
+/-- the workbook uses the 1904 date system iff some DATEMODE record carries 1 -/
+def declared1904 (recs : List GRec) : Bool := recs.any fun r => match r with | .date v => v == 1 | _ => false
 
 /-! ## XLSB -/
 
